@@ -647,6 +647,47 @@ func run(c *core.Ctx) {
 			}
 			pairs := [][2]string{{"", ""}, {rootFile, ""}, {"", rootFile}, {rootFile, rootFile}, {rootFile, otherFile}, {otherFile, otherFile},
 				{missing, rootFile}, {rootFile, missing}, {emptyFile, rootFile}, {rootFile, emptyFile}, {textFile, textFile}, {emptyFile, emptyFile}, {dir, dir}}
+			var byOther *device
+			for _, d := range related {
+				if d.name == "rsa1024-by-other-ca" {
+					byOther = d
+				}
+			}
+			type built struct {
+				at *yubiattest.Attestor
+				pr [2]string
+			}
+			var all []built
+			judge := func(at *yubiattest.Attestor, pr [2]string, when string) {
+				in := map[string]interface{}{"piv_root_file": filepath.Base(pr[0]), "u2f_root_file": filepath.Base(pr[1]), "when": when}
+				var e1, e2, e3 error
+				if p, msg := core.Guard(func() {
+					e1 = at.Attest(devSys, slotFor(kSys))
+					e2 = at.Attest(good[0].cert, slotFor(good[0].rsaKey))
+					if byOther != nil {
+						e3 = at.Attest(byOther.cert, slotFor(byOther.rsaKey))
+					}
+				}); p {
+					c.Native("panic in Attest on an attestor built from root files: "+msg, in)
+					return
+				}
+				rootNamed := pr[0] == rootFile || pr[1] == rootFile
+				otherNamed := pr[0] == otherFile || pr[1] == otherFile
+				switch {
+				case e1 == nil:
+					c.Native("an attestor built from the named root files attests a device certificate that chains only to the host's trust store", in)
+				case rootNamed && e2 != nil:
+					c.Native("an attestor built from files that contain the root refuses a genuine device certificate: "+errText(e2), in)
+				case !rootNamed && e2 == nil:
+					c.Native("an attestor built from files that do not contain the root attests a device certificate issued by it", in)
+				case byOther != nil && !otherNamed && e3 == nil:
+					c.Native("an attestor attests a device certificate issued by a CA that is in neither of ITS root files (another attestor of the process names that CA)", in)
+				case byOther != nil && otherNamed && e3 != nil:
+					c.Native("an attestor built from files that contain the other CA refuses a device certificate issued by it: "+errText(e3), in)
+				default:
+					c.NativeCheck(1)
+				}
+			}
 			for _, pr := range pairs {
 				in := map[string]interface{}{"piv_root_file": filepath.Base(pr[0]), "u2f_root_file": filepath.Base(pr[1])}
 				var at *yubiattest.Attestor
@@ -661,25 +702,12 @@ func run(c *core.Ctx) {
 					continue
 				}
 				c.Stat("attestor-constructed")
-				var e1, e2 error
-				if p, msg := core.Guard(func() {
-					e1 = at.Attest(devSys, slotFor(kSys))
-					e2 = at.Attest(good[0].cert, slotFor(good[0].rsaKey))
-				}); p {
-					c.Native("panic in Attest on an attestor built from root files: "+msg, in)
-					continue
-				}
-				rootNamed := pr[0] == rootFile || pr[1] == rootFile
-				switch {
-				case e1 == nil:
-					c.Native("an attestor built from the named root files attests a device certificate that chains only to the host's trust store", in)
-				case rootNamed && e2 != nil:
-					c.Native("an attestor built from files that contain the root refuses a genuine device certificate: "+errText(e2), in)
-				case !rootNamed && e2 == nil:
-					c.Native("an attestor built from files that do not contain the root attests a device certificate issued by it", in)
-				default:
-					c.NativeCheck(1)
-				}
+				all = append(all, built{at, pr})
+				judge(at, pr, "right after its construction")
+			}
+			// several attestors live in one process: each still accepts exactly what ITS files name
+			for _, b := range all {
+				judge(b.at, b.pr, "after every other attestor of the run was constructed")
 			}
 			os.RemoveAll(dir)
 		}
